@@ -38,8 +38,8 @@ META = {
 TRIGGERS = ['a_raises', 'b_returns', 'stop_flag', 'external_cancel', 'none']
 
 
-def run_operator(trigger, at, su_dur, su_fails, cu_dur, a_linger, daemon_delay, with_daemon, hung_for, su2_retries=False):
-    w = World(base_body(), tmode='symbolic')
+def run_operator(trigger, at, su_dur, su_fails, cu_dur, a_linger, daemon_delay, with_daemon, hung_for, su2_retries=False, staged=False):
+    w = World(base_body(labels={'run': 'yes'}), tmode='symbolic')
     loop = w.loop
     log = []
     registry = w.registry
@@ -70,7 +70,19 @@ def run_operator(trigger, at, su_dur, su_fails, cu_dur, a_linger, daemon_delay, 
             await asyncio.sleep(cu_dur)
         log.append(('cleanup_end', loop.time()))
 
-    if with_daemon:
+    if with_daemon and staged:
+        # a daemon that ignores the stop flag and exits only when cancelled; its staged termination (flag -> backoff -> cancel)
+        # is already under way (filters mismatch) when the operator is stopped
+        @kopf.daemon(PLURAL, id='dm', registry=registry, labels={'run': 'yes'}, cancellation_backoff=5, cancellation_timeout=5)
+        async def dm(stopped, **_):
+            log.append(('daemon_enter', loop.time()))
+            try:
+                await asyncio.Event().wait()
+            except asyncio.CancelledError:
+                log.append(('daemon_flag', loop.time()))
+                log.append(('daemon_exit', loop.time()))
+                raise
+    elif with_daemon:
         @kopf.daemon(PLURAL, id='dm', registry=registry)
         async def dm(stopped, **_):
             log.append(('daemon_enter', loop.time()))
@@ -124,6 +136,10 @@ def run_operator(trigger, at, su_dur, su_fails, cu_dur, a_linger, daemon_delay, 
             if with_daemon:
                 await w.process('ADDED')          # "API activity": spawns the daemon through the real pipeline
                 log.append(('api', loop.time()))
+                if staged:
+                    await asyncio.sleep(0)
+                    w.server.write(lambda o: o['metadata'].setdefault('labels', {}).update(run='no'))
+                    staging = asyncio.create_task(w.process('MODIFIED'))     # asks the daemon to stop, then sleeps for the backoff
             if hung_for is not None:
                 async def straggler():
                     try:
@@ -186,7 +202,7 @@ def run_operator(trigger, at, su_dur, su_fails, cu_dur, a_linger, daemon_delay, 
 
 
 def h_lifecycle(trigger: int, at: int, su_dur: int, su_fails: bool, cu_dur: int, a_linger: int, daemon_delay: int,
-                with_daemon: bool, hung: bool, su2_retries: bool) -> bool:
+                with_daemon: bool, hung: bool, su2_retries: bool, staged: bool) -> bool:
     """
     pre: 0 <= trigger <= 4 and at >= 0 and su_dur >= 0 and cu_dur >= 0 and a_linger >= 0 and daemon_delay >= 0
     post: _ == True
@@ -202,8 +218,9 @@ def h_lifecycle(trigger: int, at: int, su_dur: int, su_fails: bool, cu_dur: int,
     if name == 'none' and not su_fails:
         return True                      # nothing ever stops this operator: not a scenario
     try:
+        staged = vkopf.pin('staged', staged) and with_daemon
         log, outcome = run_operator(name, at, su_dur, su_fails, cu_dur, a_linger, daemon_delay, with_daemon, 3 if hung else None,
-                                    su2_retries=su2_retries)
+                                    su2_retries=su2_retries, staged=staged)
     except (Deadlock, Diverged, Livelock):
         return vkopf.verdict(False)
     t = {}
@@ -255,12 +272,14 @@ def h_lifecycle(trigger: int, at: int, su_dur: int, su_fails: bool, cu_dur: int,
                 ok = False
         if 'daemon_flag' in t and t['daemon_flag'] > t['cleanup_begin']:
             ok = False
+        if staged and 'daemon_enter' in t and ('daemon_exit' not in t or t['daemon_exit'] > t['cleanup_begin']):
+            ok = False                   # a daemon already in staged termination is taken over by the exit path as well
         vkopf.witness('cleanup')
     elif startup_ok and name != 'external_cancel':
         ok = False                       # a graceful/fail-fast stop always runs the cleanup handlers
     # bounded exit: stop trigger -> return within the grace periods
     if stopped_at is not None and startup_ok:
-        bound = stopped_at + a_linger + daemon_delay + cu_dur + 5 + 1
+        bound = stopped_at + a_linger + daemon_delay + cu_dur + 5 + 1 + (10 if staged else 0)
         if end > bound:
             ok = False
     return vkopf.verdict(ok)
@@ -273,12 +292,17 @@ def obligations():
         (0, False, True, False, False), (1, False, False, True, False), (2, False, True, False, True), (3, False, True, False, False),
         (4, True, False, False, True), (0, True, False, False, False), (2, True, False, False, True), (3, True, True, False, True)]
     for (tr, sf, wd, hg, s2) in sample:
-        obs.append(Ob('h_lifecycle', {'coarse': True, 'pin': {'trigger': tr, 'su_fails': sf, 'with_daemon': wd, 'hung': hg, 'su2_retries': s2}},
-                      tiers=('quick',), timeout=900, path_timeout=300))
+        obs.append(Ob('h_lifecycle', {'coarse': True, 'pin': {'trigger': tr, 'su_fails': sf, 'with_daemon': wd, 'hung': hg, 'su2_retries': s2,
+                                                              'staged': False}}, tiers=('quick',), timeout=900, path_timeout=300))
+    for tr in (2, 0):
+        obs.append(Ob('h_lifecycle', {'coarse': True, 'pin': {'trigger': tr, 'su_fails': False, 'with_daemon': True, 'hung': False,
+                                                              'su2_retries': False, 'staged': True}}, tiers=('quick',), timeout=900, path_timeout=300))
     obs.append(Ob('h_lifecycle', {'coarse': True}, tiers=('quick', 'thorough'), timeout=600, path_timeout=300,
                   twins=['startup_failed', 'fail_fast', 'cleanup', 'daemon'], main=False))
     obs += split(Ob('h_lifecycle', {'coarse': True}, tiers=('thorough',), timeout=1800, path_timeout=300),
-                 trigger=[0, 1, 2, 3, 4], su_fails=B, with_daemon=B, hung=B, su2_retries=B)
+                 trigger=[0, 1, 2, 3, 4], su_fails=B, with_daemon=B, hung=B, su2_retries=B, staged=[False])
+    obs += split(Ob('h_lifecycle', {'coarse': True}, tiers=('thorough',), timeout=1800, path_timeout=300),
+                 trigger=[0, 1, 2, 3], su_fails=[False], with_daemon=[True], hung=B, su2_retries=[False], staged=[True])
     obs += split(Ob('h_lifecycle', {}, tiers=('thorough',), timeout=3400, path_timeout=300), trigger=[0, 1, 2, 3], su_fails=[False],
-                 with_daemon=[True], hung=[False], su2_retries=[False])
+                 with_daemon=[True], hung=[False], su2_retries=[False], staged=[False])
     return obs
